@@ -107,7 +107,7 @@ Theorem modes_agree : forall files o,
   end.
 Proof.
   intros files o Hwf. change (R (npy_load MMemory files o) (npy_load MTime files o)).
-  unfold npy_load. rewrite !load_all_step.
+  unfold npy_load. cbn [resolve_mode]. rewrite !load_all_step.
   destruct (py_get files 0) as [p0|e] eqn:E0; cbn [bind]; [|reflexivity].
   rewrite Forall_forall in Hwf.
   pose proof (one_rel o p0 (Hwf p0 (py_get_In _ _ _ E0))) as H0.
@@ -163,7 +163,7 @@ Theorem missing_file_error : forall mode files o,
   (exists e, npy_load mode files o = Err e) /\ (exists e, txt_load files o = Err e).
 Proof.
   intros mode files o Hin. destruct K_rest as [Hn [Ht [Hnh Hth]]]. split.
-  - unfold npy_load. destruct mode; try (rewrite Hnh; apply missing_file_error_gen; [reflexivity|exact Hn|exact Hin]).
+  - unfold npy_load. destruct mode; cbn [resolve_mode mode_default_time]; try (rewrite Hnh; apply missing_file_error_gen; [reflexivity|exact Hn|exact Hin]).
     eexists; reflexivity.
   - unfold txt_load. rewrite Hth. apply missing_file_error_gen; [reflexivity|exact Ht|exact Hin].
 Qed.
@@ -201,7 +201,7 @@ Theorem fields_spec : forall mode f0 rest o t n,
   tnames t = map fst (spec_kept o (f_schema f0)).
 Proof.
   intros mode f0 rest o t n Hwf H. destruct K_mem_bs as [_ Hbs].
-  unfold npy_load in H. destruct mode; try discriminate;
+  unfold npy_load in H. destruct mode; cbn [resolve_mode mode_default_time] in H; try discriminate;
     rewrite load_all_step in H;
     change (py_get (Some f0 :: rest) 0) with (py_get (Some f0 :: rest) (Z.of_nat 0)) in H;
     rewrite (py_get_nth (Some f0 :: rest) 0 None) in H by (cbn; lia);
